@@ -87,6 +87,11 @@ def make_commands(ctx, cases, fns, faults_on_valid_sweeps):
             maxvalid[k] = max(maxvalid.get(k, c["v"]), c["v"])
     for c in cases:
         if c["fn"] not in fns:
+            # the authentication-tamper runs are few and cheap: they cover EVERY unwrap / verify function in
+            # the quick tier too (the seeded third applies to argument sweeps and fault injection)
+            if c["p"] == "":
+                for t in sorted(c.get("tamper", [])):
+                    add(c["fn"], "auth", c["a"], c, tamper=t, variant=0)
             continue
         add(c["fn"], "sweep", c["a"], c)
         valid = not c["viol"]
